@@ -689,6 +689,56 @@ class Fn:
         return out
 
 
+def class_view(repo: Repo, fi: FuncInfo, concrete, allow=None, max_depth: int = 4) -> FuncInfo:
+    """Inlined view (core/inline_stmt.py) of method `fi` *as executed on an instance of class `concrete`*: calls on `self` / `cls` /
+    `super()` are resolved by the method resolution order of `concrete` instead of by class-hierarchy analysis, so template methods
+    (abstract in the base class, overridden or extended in subclasses) are inlined with the implementation that really runs."""
+    from core.inline_stmt import Inliner
+
+    cache = repo.__dict__.setdefault("_c11_class_views", {})
+    key = (fi.fq, concrete.fq, id(allow), max_depth)
+    if key in cache:
+        return cache[key]
+    T = types_of(repo)
+    mro = repo.mro(concrete)
+
+    class ClassInliner(Inliner):
+        def _resolve(self, ctx, call):  # noqa: ANN001
+            src = getattr(call, "_src", None)
+            c_ctx, orig = src if src is not None else (ctx, call)
+            if isinstance(orig, ast.Call) and isinstance(orig.func, ast.Attribute) and c_ctx.cls is not None and c_ctx.cls in mro and c_ctx.outer is None:
+                recv = orig.func.value
+                target = None
+                if isinstance(recv, ast.Name) and c_ctx.params and recv.id == c_ctx.params[0].arg and not c_ctx.is_staticmethod:
+                    target = repo.lookup_method(concrete, orig.func.attr)
+                elif isinstance(recv, ast.Call) and isinstance(recv.func, ast.Name) and recv.func.id == "super":
+                    for c in mro[mro.index(c_ctx.cls) + 1:]:
+                        if orig.func.attr in c.methods:
+                            target = c.methods[orig.func.attr]
+                            break
+                if target is not None:
+                    return None if (target.is_abstract or target.is_property) else target
+            return super()._resolve(ctx, call)
+
+        def _expand(self, ctx, call, callee, taken, origin, stack):  # noqa: ANN001
+            # super().m(...) runs m on the very same object: bind the callee's `self` to the caller's, not to the proxy
+            f = call.func
+            if isinstance(f, ast.Attribute) and isinstance(f.value, ast.Call) and isinstance(f.value.func, ast.Name) and f.value.func.id == "super" and ctx.params and not callee.is_staticmethod:
+                recv = ast.copy_location(ast.Name(id=ctx.params[0].arg, ctx=ast.Load()), f.value)
+                nf = ast.copy_location(ast.Attribute(value=recv, attr=f.attr, ctx=ast.Load()), f)
+                call2 = ast.copy_location(ast.Call(func=nf, args=call.args, keywords=call.keywords), call)
+                if hasattr(call, "_src"):
+                    call2._src = call._src  # type: ignore[attr-defined]
+                call = call2
+            return super()._expand(ctx, call, callee, taken, origin, stack)
+
+    v = ClassInliner(repo, T, allow, max_depth).view(fi)
+    v.qualname = f"{fi.qualname}~inl@{concrete.name}"
+    v.cls = concrete
+    cache[key] = v
+    return v
+
+
 def path_conditions_nokill(fn_node: ast.AST) -> dict[int, list]:
     """Like core.cfg.path_conditions, but conditions are *not* dropped when something they mention is re-bound: every condition
     is reported with the statement it was tested at, and the caller decides whether it still speaks about the same values."""
